@@ -171,7 +171,7 @@ func concretise(rng *rand.Rand, k int, protoClass string) conc {
 		c.peer16 = rng.Intn(2) == 0
 		c.peerStr, c.otherStr = altForm(rng, c.peerIP), altForm(rng, c.otherIP)
 		c.badStr = badHosts[rng.Intn(len(badHosts))]
-		c.badTS = rng.Intn(16) == 0
+		c.badTS = k >= 2 && rng.Intn(16) == 0 // never in the only concretisation of the quick tier
 	}
 	switch protoClass {
 	case "generic":
